@@ -22,3 +22,4 @@ def rules(ctx):
     S.state_writer_rules(ctx)
     S.mutator_release_rules(ctx)
     S.free_verdict_rules(ctx)
+    S.survey_residue_rules(ctx)
